@@ -305,6 +305,120 @@ def _settle_inlined_constants(fn: ast.AST) -> int:
     return total
 
 
+def _sink_selected_continuation(P, module, fn: ast.AST) -> int:
+    """`model = _classify(data); if model is None: raise …; return model.model_validate(data)` with the classifier read in:
+    every arm of the chain ends by choosing a value for `model` (a class, a function, a literal, None) and the statements
+    after the chain only act on that choice.  Moved into the arms with the choice written out, they are the chain the
+    selection was factored out of:  `if …: return JSONRPCRequest.model_validate(data)` … `else: raise …`."""
+    n_done = 0
+
+    def simple_choice(v) -> bool:
+        if isinstance(v, ast.Constant):
+            return True
+        if isinstance(v, ast.Name):
+            kind, _o = P.resolve_name(module.name, v.id)
+            return kind in ("class", "func")
+        return False
+
+    def never_none(v) -> bool:
+        return isinstance(v, ast.Name) or (isinstance(v, ast.Constant) and v.value is not None)
+
+    def leaves(chain: ast.If, name: str):
+        """[(stmt list, index)] of the final `name = choice` of every arm, or None if some arm does not end that way"""
+        out = []
+
+        def arm(stmts):
+            if not stmts:
+                return False
+            last = stmts[-1]
+            if isinstance(last, ast.If):
+                return walk_if(last)
+            if isinstance(last, ast.Assign) and len(last.targets) == 1 and isinstance(last.targets[0], ast.Name) and last.targets[0].id == name and simple_choice(last.value):
+                out.append((stmts, len(stmts) - 1))
+                return True
+            return False
+
+        def walk_if(i: ast.If):
+            if not i.orelse:
+                return False
+            return arm(i.body) and arm(i.orelse)
+
+        return out if walk_if(chain) else None
+
+    changed = True
+    while changed and n_done < 4:
+        changed = False
+        for holder in ast.walk(fn):
+            for field in ("body", "orelse", "finalbody"):
+                blk = getattr(holder, field, None)
+                if not (isinstance(blk, list) and blk and isinstance(blk[0], ast.stmt)):
+                    continue
+                for i, st in enumerate(blk):
+                    if not isinstance(st, ast.If) or i + 1 >= len(blk):
+                        continue
+                    rest = blk[i + 1:]
+                    if len(rest) > 8 or any(isinstance(x, (ast.FunctionDef, ast.AsyncFunctionDef, ast.ClassDef)) for r in rest for x in ast.walk(r)):
+                        continue
+                    # the variable: loaded by the first statement after the chain, assigned at the end of every arm
+                    cands = {x.id for x in ast.walk(rest[0]) if isinstance(x, ast.Name) and isinstance(x.ctx, ast.Load)}
+                    for name in sorted(cands):
+                        lv = leaves(st, name)
+                        if not lv or len(lv) > 8:
+                            continue
+                        if any(isinstance(x, ast.Name) and x.id == name and isinstance(x.ctx, ast.Store) for r in rest for x in ast.walk(r)):
+                            continue
+                        # the name is used nowhere else in the function (only chosen in the chain, only read after it)
+                        uses_elsewhere = [x for x in ast.walk(fn) if isinstance(x, ast.Name) and x.id == name and not any(x is y for r in rest + [st] for y in ast.walk(r))]
+                        if uses_elsewhere:
+                            continue
+                        for stmts, k in lv:
+                            choice = stmts[k].value
+
+                            class Sub(ast.NodeTransformer):
+                                def visit_Compare(self_, node):
+                                    if len(node.ops) == 1 and isinstance(node.left, ast.Name) and node.left.id == name and isinstance(node.comparators[0], ast.Constant) and node.comparators[0].value is None and isinstance(node.ops[0], (ast.Is, ast.IsNot)) and never_none(choice):
+                                        return ast.copy_location(ast.Constant(value=isinstance(node.ops[0], ast.IsNot)), node)
+                                    self_.generic_visit(node)
+                                    return node
+
+                                def visit_Name(self_, node):
+                                    if node.id == name and isinstance(node.ctx, ast.Load):
+                                        return ast.copy_location(copy.deepcopy(choice), node)
+                                    return node
+
+                            moved = [Sub().visit(copy.deepcopy(r)) for r in rest]
+                            ct = _ConstTests()
+                            folded = []
+                            for r in moved:
+                                # literal tests (`if False:`) written by the substitution
+                                if isinstance(r, ast.If) and isinstance(r.test, ast.Constant):
+                                    folded += r.body if r.test.value else r.orelse
+                                    continue
+                                if isinstance(r, ast.If) and isinstance(r.test, ast.UnaryOp) and isinstance(r.test.op, ast.Not) and isinstance(r.test.operand, ast.Constant):
+                                    folded += r.orelse if r.test.operand.value else r.body
+                                    continue
+                                q = ct.visit(r)
+                                folded += q if isinstance(q, list) else [q]
+                            for j_, r in enumerate(folded):
+                                if isinstance(r, (ast.Raise, ast.Return, ast.Continue, ast.Break)):
+                                    folded = folded[:j_ + 1]  # what followed an unconditional exit is gone with the arm that was ruled out
+                                    break
+                            stmts[k:k + 1] = folded or [ast.copy_location(ast.Pass(), st)]
+                        del blk[i + 1:]
+                        n_done += 1
+                        changed = True
+                        break
+                    if changed:
+                        break
+                if changed:
+                    break
+            if changed:
+                break
+    if n_done:
+        ast.fix_missing_locations(fn)
+    return n_done
+
+
 class _ConstTests(ast.NodeTransformer):
     """After an argument that is a literal took a parameter's place: `A if None is not None else B` is B, `if None is None: S`
     is S.  Only tests made of literals are decided; everything else is left."""
@@ -465,6 +579,10 @@ class Inliner:
             for m in P.modules.values():
                 normalize(m.tree)  # what was read in at the call sites gets the same single spelling as the rest
                 ast.fix_missing_locations(m.tree)
+            for fq in touched:
+                fi = P.funcs.get(fq)
+                if fi is not None:
+                    _sink_selected_continuation(P, fi.module, fi.node)
             self._drop_unused()
             P._reindex()
         return total
